@@ -112,7 +112,10 @@ private:
             const Complex lambdaj = (err1 < err2) ? root1 : root2;
             m_ritz_val[i] = lambdaj;
 
-            if (abs(Eigen::numext::imag(lambdaj)) > eps)
+            // A real Ritz value nu belongs to a real eigenvector and hence to a real eigenvalue,
+            // even if rounding in the square root above leaves a small imaginary part
+            // (|lambda - sigmar| close to |sigmai|); only complex nu come in conjugate pairs
+            if (Eigen::numext::imag(nu) != Scalar(0) && abs(Eigen::numext::imag(lambdaj)) > eps)
             {
                 m_ritz_val[i + 1] = Eigen::numext::conj(lambdaj);
                 i++;
